@@ -141,17 +141,54 @@ func c06ValidatedFields(c *core.Ctx, rule string) {
 		}
 		return false
 	})
-	flow := facts.PathFlow(parse, ff)
 	n := 0
-	for _, r := range returnsOf(parse) {
-		if len(r.Results) != 2 || !facts.RetErrIsNil(r) {
+	analyse := func(root *ssa.Function) {
+		flow := facts.PathFlow(root, ff)
+		for _, r := range returnsOf(root) {
+			if len(r.Results) != 2 || !facts.RetErrIsNil(r) {
+				continue
+			}
+			n++
+			for fld, pred := range fieldPredicate {
+				ok := facts.AllAt(ff, flow, r, func(t facts.Tokens) bool { return !t["set:"+fld] || t["ok:"+fld] })
+				c.Check(ok, rule, "classifier/return/"+fld, r.Pos(), fld+" is unset, constant, or passed ociref."+pred, "a request is classified successfully on a path where its "+fld+" field holds a value that did not pass ociref."+pred+": the backend can be called with a syntactically invalid "+strings.ToLower(fld))
+			}
+		}
+	}
+	analyse(parse)
+	// part of the classification may live in a helper that builds the request
+	// itself and whose results the classifier returns as they are
+	// (`return parseUploadStart(method, repo, q)`): such a helper is a classifier
+	// in its own right
+	for _, h := range withHelpers(parse) {
+		if h == parse || h.Parent() != nil || h.Pkg != parse.Pkg || h.Signature.Results().Len() != 2 {
 			continue
 		}
-		n++
-		for fld, pred := range fieldPredicate {
-			ok := facts.AllAt(ff, flow, r, func(t facts.Tokens) bool { return !t["set:"+fld] || t["ok:"+fld] })
-			c.Check(ok, rule, "classifier/return/"+fld, r.Pos(), fld+" is unset, constant, or passed ociref."+pred, "a request is classified successfully on a path where its "+fld+" field holds a value that did not pass ociref."+pred+": the backend can be called with a syntactically invalid "+strings.ToLower(fld))
+		takesReq := false
+		for _, p := range h.Params {
+			if pt, ok := p.Type().(*types.Pointer); ok && isNamed(pt.Elem(), "internal/ocirequest", "Request") {
+				takesReq = true
+			}
 		}
+		if takesReq {
+			continue
+		}
+		var own *ssa.Alloc
+		for _, b := range h.Blocks {
+			for _, in := range b.Instrs {
+				if al, ok := in.(*ssa.Alloc); ok && al.Heap && isNamed(al.Type().(*types.Pointer).Elem(), "internal/ocirequest", "Request") {
+					own = al
+				}
+			}
+		}
+		if own == nil {
+			continue
+		}
+		c.Analysed(facts.FuncName(h))
+		saved, savedTerm := rreq, rreqTerm
+		rreq, rreqTerm = own, facts.Term(own)
+		analyse(h)
+		rreq, rreqTerm = saved, savedTerm
 	}
 	// classification outcomes decided inside followed helpers count as well
 	for h, ok := range followed {
